@@ -240,6 +240,33 @@ def _foreign_guards(f: FuncInfo, owner: ast.AST, zp: str, attr: str) -> List[str
                 return True
         return False
     walk(f.node, [])
+
+    # guard clauses: `if T: return/raise/continue/break` standing before the traversal in an enclosing block
+    def foreign(test: ast.AST) -> bool:
+        mentions = any(isinstance(x, ast.Attribute) and x.attr == attr and isinstance(x.value, ast.Name) and x.value.id == zp for x in ast.walk(test))
+        other = any(isinstance(x, ast.Attribute) and isinstance(x.value, ast.Name) and x.value.id == zp and x.attr != attr for x in ast.walk(test))
+        return other or not mentions
+
+    def contains(node: ast.AST) -> bool:
+        return any(x is owner for x in ast.walk(node))
+
+    def blocks(cur: ast.AST):
+        for fld in ("body", "orelse", "finalbody"):
+            stmts = getattr(cur, fld, None)
+            if isinstance(stmts, list) and stmts and isinstance(stmts[0], ast.stmt):
+                for i, st in enumerate(stmts):
+                    if contains(st):
+                        for prev in stmts[:i]:
+                            if isinstance(prev, ast.If) and not prev.orelse and prev.body and isinstance(prev.body[-1], (ast.Return, ast.Raise, ast.Continue, ast.Break)) \
+                                    and foreign(prev.test):
+                                out.append(f"not ({ast.unparse(prev.test)}) [early exit]")
+                        if not isinstance(st, (ast.FunctionDef, ast.AsyncFunctionDef, ast.ClassDef)):
+                            blocks(st)
+                        return
+        for h in getattr(cur, "handlers", []) or []:
+            if contains(h):
+                blocks(h)
+    blocks(f.node)
     return out
 
 
